@@ -274,11 +274,30 @@ def run_property(verif, pid, tier, seed):
             if hit: known.append((nm, hit[0][2]))
             else: viol.append((O, nm, d))
     undecided = [f"{O.name}: {O.undecided}" for O in outcomes if O.undecided] + extra_undecided
-    # Verus and companion must agree
+    standalone = {comp["name"] for comp in conf.get("companions", []) if comp.get("standalone")}
+    # Verus and companion must agree (a companion that checks the same function as a Verus unit)
     for cname, f in extra_fail:
+        if cname in standalone: continue
         if not viol and not known:
             undecided.append(f"{cname} reports a failure ({f.get('name')}) that the Verus unit did not: engines disagree")
     lines = []
+    # a standalone companion is the BOUNDED stand-in for a function no unit can take: its failed harness is the violation, with
+    # the checker's counterexample replayed on the real code when it gives one
+    for cname, f in extra_fail:
+        if cname not in standalone: continue
+        w = None
+        if f.get("replay_args"):
+            try: w = replay_tool(verif, f["replay_args"])
+            except Exception as e: w = {"error": f"{type(e).__name__}: {e}"}
+        confirmed = bool(w and w.get("violates"))
+        os.makedirs(os.path.join(verif, "replays"), exist_ok=True)
+        path = os.path.join(verif, "replays", f"{pid}-{re.sub(r'[^A-Za-z0-9_.-]', '_', f.get('name', cname))[:100]}.json")
+        json.dump({"property": pid, "obligation": f.get("name"), "unit": cname, "function": f.get("function"), "verus_message": None,
+                   "checker_output": f.get("output"), "failed_checks": f.get("checks"), "counterexample": f.get("counterexample"), "witness": w,
+                   "note": "bounded stand-in (Kani harness with a stated bound): the harness passed on the unchanged tree and fails now"
+                           + ("" if confirmed else "; the counterexample did not replay as a failing input"),
+                   "checker_cmd": extra[cname].get("cmd"), "replay_cmd": f"./check --replay {path}"}, open(path, "w"), indent=1)
+        lines.append(f"VIOLATION property={pid} replay={path}" + ("" if confirmed else " no-failing-input-found"))
     if viol:
         by_unit = {}
         for O, nm, d in viol: by_unit.setdefault(O.name, []).append((O, nm, d))
